@@ -108,6 +108,7 @@ def main():
     ap.add_argument("--jobs", type=int, default=16)
     ap.add_argument("--list", action="store_true")
     ap.add_argument("-v", action="store_true")
+    ap.add_argument("--summary-json", default=None)
     args = ap.parse_args()
     vs = load_variants()
     if args.prop:
@@ -119,9 +120,14 @@ def main():
             print(v["id"], v["props"], v["expect"], v.get("rule", ""))
         return 0
     fails = 0
+    summary = []
+    if args.prop:
+        # only run the named property's check for each variant (slice of the catalogue)
+        vs = [dict(v, props=[args.prop]) for v in vs if v["expect"] == "silent" or v["props"] == [args.prop]]
     with ThreadPoolExecutor(max_workers=args.jobs) as ex:
         for v, verdict, msg, out in ex.map(run_variant, vs):
             print("%-7s %-46s %s" % (verdict, v["id"], msg))
+            summary.append({"variant": v["id"], "expect": v["expect"], "rule": v.get("rule", ""), "verdict": verdict, "detail": msg})
             if verdict != "ok":
                 fails += 1
                 if args.v or True:
@@ -129,6 +135,9 @@ def main():
                     for l in tail:
                         print("        " + l[:300])
     print("%d variants, %d failures" % (len(vs), fails))
+    if args.summary_json:
+        with open(args.summary_json, "w") as f:
+            json.dump({"variants": len(vs), "failures": fails, "results": summary}, f, indent=1)
     return 1 if fails else 0
 
 
